@@ -130,8 +130,12 @@ type ctl struct {
 
 var curCtl atomic.Pointer[ctl]
 
-func installHook() {
-	gohlslib.VerifSetHook(func(point string) {
+func installHook() { gohlslib.VerifSetHook(dispatchHook) }
+
+// dispatchHook is the yield point: a controlled goroutine reports where it is and parks until the
+// controller releases it. It is called by the verif hooks of /repo and by the storage gate.
+func dispatchHook(point string) {
+	{
 		c := curCtl.Load()
 		if c == nil || c.drain.Load() {
 			return
@@ -155,7 +159,7 @@ func installHook() {
 		}
 		c.ev <- event{a.id, point}
 		<-a.resume
-	})
+	}
 }
 
 func newCtl(m *gohlslib.Muxer) *ctl {
@@ -208,9 +212,9 @@ func (c *ctl) spawnWriter(noClose bool) (*actor, chan func()) {
 
 type waitResult struct {
 	ev      *event
-	blocked string            // "sync.Mutex.Lock" / "sync.Cond.Wait": the watched goroutines are all parked there
-	states  map[int]string    // per watched actor, when blocked
-	hang    bool              // watchdog
+	blocked string         // "sync.Mutex.Lock" / "sync.Cond.Wait": the watched goroutines are all parked there
+	states  map[int]string // per watched actor, when blocked
+	hang    bool           // watchdog
 }
 
 // await waits for the next event. While waiting it inspects the scheduler state of the
